@@ -352,7 +352,7 @@ META['C08'] = {
 }
 JOBS['C08'] = [
     {'name': 'equivalent_keys', 'harness': 'c08_rel.c', 'units': 'ALL', 'defs': {'quick': {'MODE': 0}, 'thorough': {'MODE': 0, 'SYMBUF': 1}}, 'expect_reach': ['end'], 'heavy': True,
-     'timeout': {'quick': 280, 'thorough': 600}, 'max_steps': 80000000, 'validate': {'quick': 6, 'thorough': 12}},
+     'timeout': {'quick': 420, 'thorough': 600}, 'max_steps': 80000000, 'validate': {'quick': 6, 'thorough': 12}},
     {'name': 'delete_vs_yank_put', 'harness': 'c08_rel.c', 'units': 'ALL', 'defs': {'quick': {'MODE': 1}, 'thorough': {'MODE': 1, 'SYMBUF': 1}}, 'expect_reach': ['end', 'removed'], 'heavy': True,
      'timeout': {'quick': 280, 'thorough': 600}, 'max_steps': 80000000, 'validate': {'quick': 6, 'thorough': 12}},
     {'name': 'delete_regions', 'harness': 'c07_mot.c', 'units': 'ALL', 'defs': {'quick': {'NMOT': 39, 'OPER': 1}, 'thorough': {'LL': 2, 'NMOT': 39, 'SYMTEXT': 1, 'NCNT': 3, 'OPER': 1}}, 'heavy': True,
